@@ -121,3 +121,11 @@ def ddmin(items, fails):
                 break
             n = min(len(items), n * 2)
     return items
+
+
+def out_of_time():
+    """True once the budget check.py set for the extended failing-input search (VERIF_DEADLINE, epoch
+    seconds) is used up; suites with long main loops stop generating new cases then."""
+    import time
+    d = os.environ.get('VERIF_DEADLINE')
+    return bool(d) and time.time() > float(d)
